@@ -19,6 +19,11 @@ pub static SCENARIOS: &[ScenarioDef] = &[
         build: gen_rc,
     },
     ScenarioDef {
+        name: "gen/reader",
+        about: "a reader that runs every sequence of <= k letters {load, deref, flush, two decrements, counted, load child, reactivate} inside ONE critical section against a mutator running every sequence of <= k letters {unlink, link fresh, swap out and drop, round, drop held}, plus two threads running one round each",
+        build: gen_reader,
+    },
+    ScenarioDef {
         name: "gen/weak",
         about: "every pair of programs of <= k operations per thread over a 12-letter weak-pointer alphabet (AtomicWeak, WeakSnapshot::counted/upgrade, Weak clone/drop/upgrade) from four lifecycle states of the object, plus a thread running rounds",
         build: gen_weak,
@@ -231,6 +236,148 @@ fn gen_rc(p: &Params) -> Program {
                 if w.rc[i].is_some() {
                     c.deref(w.rc[i].get());
                 }
+            }
+        })),
+        ..Default::default()
+    }
+}
+
+// ------------------------------------------------------------------------------------ gen/reader
+
+pub const READER_LETTERS: i64 = 7;
+pub const MUTATOR_LETTERS: i64 = 5;
+
+pub fn reader_cases(k1: usize, k2: usize) -> i64 {
+    READER_LETTERS.pow(k1 as u32) * MUTATOR_LETTERS.pow(k2 as u32)
+}
+
+fn gen_reader(p: &Params) -> Program {
+    let k1 = p.get("k1", 2) as usize;
+    let k2 = p.get("k2", 2) as usize;
+    let case = p.get("case", 0);
+    let nr = READER_LETTERS.pow(k1 as u32);
+    let p1 = decode(case % nr, k1, READER_LETTERS);
+    let p2 = decode(case / nr, k2, MUTATOR_LETTERS);
+    // init 0: root -> x -> y (links aged); 1: root -> x <- p, p's cascade `pre` rounds old
+    let init = p.get("init", 0);
+    let pre = p.get("pre", 2) as usize;
+    Program {
+        e0: p.get("e0", 0) as usize,
+        classes: p.get("classes", crate::sched::RC as i64) as u8,
+        claim: crate::exec::claim_of(p),
+        // two decrements stand for the usual 64 between two automatic flushes
+        manual_interval: 2,
+        setup: Some(body(move |c, w| {
+            let g = c.pin();
+            let x = c.new_node(1);
+            if init == 0 {
+                let y = c.new_node(2);
+                c.store(&c.node(&x).next[0], y, &g);
+                c.store(&w.roots[0], x, &g);
+                c.unpin(g);
+                c.rounds(4);
+            } else {
+                let pnode = c.new_node(4);
+                c.store(&c.node(&pnode).next[0], c.clone_rc(&x), &g);
+                c.store(&w.roots[0], x, &g);
+                c.unpin(g);
+                c.rounds(4);
+                c.drop_rc(pnode);
+                c.rounds(pre);
+            }
+            w.rc[4].put(c.new_node(9));
+            w.rc[5].put(c.new_node(7));
+        })),
+        threads: vec![
+            // the reader: one critical section
+            body(move |c, w| {
+                let mut g = c.pin();
+                let mut snap: Option<crate::world::TS> = None;
+                // SAFETY of the lifetime games: `snap` never outlives `g`; after a reactivation
+                // it is forgotten (the API enforces the same with `&mut self`)
+                for op in p1 {
+                    match op {
+                        0 => {
+                            let s = c.load(&w.roots[0], &g);
+                            snap = Some(unsafe { std::mem::transmute::<crate::world::TS<'_>, crate::world::TS<'static>>(s) });
+                        }
+                        1 => {
+                            if let Some(s) = snap {
+                                c.sderef(s);
+                            }
+                        }
+                        2 => c.flush(&g),
+                        3 => {
+                            let y = w.rc[4].get();
+                            for _ in 0..2 {
+                                let cl = c.clone_rc(y);
+                                c.drop_rc(cl);
+                            }
+                        }
+                        4 => {
+                            if let Some(s) = snap {
+                                if !s.s.is_null() && !w.rc[0].is_some() {
+                                    let r = c.counted(s);
+                                    w.rc[0].put(r);
+                                }
+                            }
+                        }
+                        5 => {
+                            if let Some(s) = snap {
+                                if !s.s.is_null() {
+                                    let s2 = c.load(&c.snode(s).next[0], &g);
+                                    c.sderef(s2);
+                                    snap = Some(unsafe { std::mem::transmute::<crate::world::TS<'_>, crate::world::TS<'static>>(s2) });
+                                }
+                            }
+                        }
+                        _ => {
+                            snap = None;
+                            c.reactivate(&mut g);
+                        }
+                    }
+                }
+                if let Some(s) = snap {
+                    c.sderef(s);
+                }
+                c.unpin(g);
+            }),
+            // the mutator
+            body(move |c, w| {
+                for op in p2 {
+                    match op {
+                        0 => {
+                            let g = c.pin();
+                            c.store(&w.roots[0], Rc::null(), &g);
+                            c.unpin(g);
+                        }
+                        1 => {
+                            if let Some(n) = w.rc[5].try_take() {
+                                let g = c.pin();
+                                c.store(&w.roots[0], n, &g);
+                                c.unpin(g);
+                            }
+                        }
+                        2 => {
+                            let old = c.swap(&w.roots[0], Rc::null());
+                            c.drop_rc(old);
+                        }
+                        3 => c.round(),
+                        _ => {
+                            if let Some(r) = w.rc[0].try_take() {
+                                c.drop_rc(r);
+                            }
+                        }
+                    }
+                }
+            }),
+            body(|c, _| c.round()),
+            body(|c, _| c.round()),
+        ],
+        post: Some(body(|c, w| {
+            c.rounds(6);
+            if w.rc[0].is_some() {
+                c.deref(w.rc[0].get());
             }
         })),
         ..Default::default()
